@@ -796,7 +796,15 @@ class Driver:
         stub = self.world.add_region(ridx)
         if st.get("no_handle"):
             self.res.probe("region_registered_without_handle")
-        spec.session.register_region(stub.addr, handle=None if st.get("no_handle") else stub.handle,
+        handle = stub.handle
+        if st.get("same_handle_as") is not None:
+            # a simulator that restarted on another port announces itself under the handle of the region it replaces,
+            # while the proxy still holds the old circuit
+            other = self.world.regions.get(self.world.region_addr(st["same_handle_as"]))
+            if other is not None:
+                handle = stub.handle = other.handle
+                self.res.probe("region_handle_announced_again_on_another_address")
+        spec.session.register_region(stub.addr, handle=None if st.get("no_handle") else handle,
                                      seed_url=f"https://sim{ridx}.example.invalid:12043/cap/seed-{spec.idx}-x{ridx}")
         if stub.addr not in spec.region_addrs:
             spec.region_addrs.append(stub.addr)
